@@ -1,15 +1,35 @@
 #!/bin/sh
-# Build the framework from files on disk only (offline): Lean model + proofs + driver, and warm the
-# object cache of the real oomd sources (the checks rebuild whatever changed in /repo afterwards).
-set -e
+# Build the framework from files on disk only (offline): translator, Lean model + proofs + drivers of the
+# checks registered in MANIFEST.json, and a warm object cache of the real oomd sources (every check
+# rebuilds whatever changed in /repo afterwards, so this is only a warm-up and never a verdict).
 cd "$(dirname "$0")"
-python3 tools/extract.py --out lean/OomdModel/Generated >/dev/null
-(cd lean && lake build)
 python3 - <<'PY'
-import sys
+import importlib, json, subprocess, sys
 sys.path.insert(0, '.')
 from vlib import core
-for fl in ("asan", "tsan"):
-    core.build_objects(fl)
-print("setup ok")
+man = json.load(open('MANIFEST.json'))
+targets, flavours = [], set()
+for c in man['checks']:
+    pid = c['property_id']
+    try:
+        mod = importlib.import_module('vlib.props.' + pid)
+    except Exception as e:
+        print('setup: cannot import check module for', pid, e)
+        continue
+    targets += ['+OomdProps.' + pid, 'drv_' + mod.ENGINE]
+    flavours.add(getattr(mod, 'FLAVOUR', 'asan'))
+    for fl in getattr(mod, 'FLAVOURS', ()):
+        flavours.add(fl)
+targets = sorted(set(targets))
+ok, failed, out = core.lake_build(targets)
+if not ok:
+    print('setup: lake build reported failures in', failed, '(the affected checks will report them)')
+    print(out[-2000:])
+for fl in sorted(flavours):
+    try:
+        core.build_objects(fl)
+    except core.InfraError as e:
+        print('setup: C++ warm-up failed:', str(e)[:2000])
+        sys.exit(1)
+print('setup ok: %d lake targets, flavours %s' % (len(targets), sorted(flavours)))
 PY
